@@ -266,23 +266,54 @@ Ltac ity_cases t H :=
   destruct H' as [-> | [-> | [-> | [-> | [-> | [-> | [-> | ->]]]]]]].
 
 (* expose the numeric constants of concrete types (goal only: keep hypotheses about the
-   type in the goal when calling it).  Closed comparisons and powers of two are evaluated,
-   everything mentioning a variable is left alone for lia. *)
-Ltac ity_eval_closed :=
-  repeat (match goal with
+   type in the goal when calling it).  Operations on numerals are evaluated, everything
+   mentioning a variable is left alone for lia. *)
+Ltac is_num r := match r with Z0 => idtac | Zpos _ => idtac | Zneg _ => idtac end.
+Ltac is_bool r := match r with true => idtac | false => idtac end.
+
+(* one step: replace an arithmetic operation / comparison whose arguments are numerals by its
+   value (never calls vm_compute on a term with variables: the VM's readback of a stuck
+   Pos.compare against a 64-bit constant is exponential) *)
+Ltac z_eval_closed_step :=
+  match goal with
   | |- context [Z.ltb ?a ?b] =>
-      let v := eval vm_compute in (Z.ltb a b) in
-      match v with true => idtac | false => idtac end; change (Z.ltb a b) with v
+      is_num a; is_num b; let r := eval vm_compute in (Z.ltb a b) in change (Z.ltb a b) with r
   | |- context [Z.leb ?a ?b] =>
-      let v := eval vm_compute in (Z.leb a b) in
-      match v with true => idtac | false => idtac end; change (Z.leb a b) with v
+      is_num a; is_num b; let r := eval vm_compute in (Z.leb a b) in change (Z.leb a b) with r
   | |- context [Z.eqb ?a ?b] =>
-      let v := eval vm_compute in (Z.eqb a b) in
-      match v with true => idtac | false => idtac end; change (Z.eqb a b) with v
+      is_num a; is_num b; let r := eval vm_compute in (Z.eqb a b) in change (Z.eqb a b) with r
+  | |- context [Z.opp ?a] =>
+      is_num a; let r := eval vm_compute in (Z.opp a) in change (Z.opp a) with r
+  | |- context [Z.sub ?a ?b] =>
+      is_num a; is_num b; let r := eval vm_compute in (Z.sub a b) in change (Z.sub a b) with r
+  | |- context [Z.add ?a ?b] =>
+      is_num a; is_num b; let r := eval vm_compute in (Z.add a b) in change (Z.add a b) with r
+  | |- context [Z.mul ?a ?b] =>
+      is_num a; is_num b; let r := eval vm_compute in (Z.mul a b) in change (Z.mul a b) with r
   | |- context [Z.pow ?a ?b] =>
-      let v := eval vm_compute in (Z.pow a b) in
-      match v with Zpos _ => idtac end; change (Z.pow a b) with v
-  end; cbv beta iota).
+      is_num a; is_num b; let r := eval vm_compute in (Z.pow a b) in change (Z.pow a b) with r
+  | |- context [Z.lxor ?a ?b] =>
+      is_num a; is_num b; let r := eval vm_compute in (Z.lxor a b) in change (Z.lxor a b) with r
+  | |- context [Z.land ?a ?b] =>
+      is_num a; is_num b; let r := eval vm_compute in (Z.land a b) in change (Z.land a b) with r
+  | |- context [Z.lor ?a ?b] =>
+      is_num a; is_num b; let r := eval vm_compute in (Z.lor a b) in change (Z.lor a b) with r
+  | |- context [Z.lnot ?a] =>
+      is_num a; let r := eval vm_compute in (Z.lnot a) in change (Z.lnot a) with r
+  | |- context [Z.quot ?a ?b] =>
+      is_num a; is_num b; let r := eval vm_compute in (Z.quot a b) in change (Z.quot a b) with r
+  | |- context [Z.rem ?a ?b] =>
+      is_num a; is_num b; let r := eval vm_compute in (Z.rem a b) in change (Z.rem a b) with r
+  | |- context [Z.div ?a ?b] =>
+      is_num a; is_num b; let r := eval vm_compute in (Z.div a b) in change (Z.div a b) with r
+  | |- context [Z.modulo ?a ?b] =>
+      is_num a; is_num b; let r := eval vm_compute in (Z.modulo a b) in change (Z.modulo a b) with r
+  | |- context [Z.shiftl ?a ?b] =>
+      is_num a; is_num b; let r := eval vm_compute in (Z.shiftl a b) in change (Z.shiftl a b) with r
+  | |- context [Z.shiftr ?a ?b] =>
+      is_num a; is_num b; let r := eval vm_compute in (Z.shiftr a b) in change (Z.shiftr a b) with r
+  end.
+Ltac ity_eval_closed := repeat (z_eval_closed_step; cbv beta iota).
 
 Ltac ity_norm :=
   cbv [in_range in_rangeb wrap tmin tmax tmod thalf pow2 pow2h bits sgn I8 I16 I32 I64 U8 U16 U32 U64
